@@ -23,6 +23,7 @@ pub struct VacantEntry<'a, P, T> {
 /// present on the tree.
 pub struct OccupiedEntry<'a, P, T> {
     pub(super) node: &'a mut Node<P, T>,
+    pub(super) count: &'a mut usize, // the number of elements in the map, updated on `remove`.
     pub(super) prefix: P, // needed to replace the prefix on the thing if we perform insert.
 }
 
@@ -404,16 +405,18 @@ impl<P, T> OccupiedEntry<'_, P, T> {
     /// let mut pm: PrefixMap<ipnet::Ipv4Net, i32> = PrefixMap::new();
     /// pm.insert("192.168.1.0/24".parse()?, 1);
     /// match pm.entry("192.168.1.0/24".parse()?) {
-    ///     Entry::Occupied(mut e) => assert_eq!(e.remove(), 1),
+    ///     Entry::Occupied(e) => assert_eq!(e.remove(), 1),
     ///     Entry::Vacant(_) => unreachable!(),
     /// }
     /// assert_eq!(pm.get(&"192.168.1.0/24".parse()?), None);
+    /// assert_eq!(pm.len(), 0);
     /// # Ok(())
     /// # }
     /// # #[cfg(not(feature = "ipnet"))]
     /// # fn main() {}
     /// ```
-    pub fn remove(&mut self) -> T {
+    pub fn remove(self) -> T {
+        *self.count -= 1;
         self.node.value.take().unwrap()
     }
 }
